@@ -14,6 +14,24 @@ CHECKS = {
         note="Trusts vf/zmodel.py's reading of the documentation (DESIGN.md appendix A) for O1; O2 trusts nothing but the engine's determinism. "
              "Programs whose outcome the documentation leaves open are skipped and counted.",
         design="DESIGN.md 5-C01"),
+    "C03": dict(
+        technique="scoping reference model + alpha-renaming / block-inlining metamorphic relations + expected compile errors, over generated binder-heavy programs",
+        category="exploration",
+        text="Generated programs with nested binders of all five kinds, shadowing (incl. names shadowing builtins), multi-yield let bodies and blocks "
+             "capturing up-values are run on the real engine and compared with a lexical-scoping reference evaluator; every program is also re-run "
+             "with all bound identifiers consistently renamed and with {B} apply replaced by the scoped body (results must be identical), and "
+             "negative variants (unbound read, read moved out of each kind of scope, rebinding) must be rejected with a message naming the identifier.",
+        note="Trusts the scoping rules of doc/syntax.rst as encoded in vf/zmodel.py; names bound inside %( %) splices are not generated (plain context, undocumented scope).",
+        design="DESIGN.md 5-C03"),
+    "C04": dict(
+        technique="metamorphic partition / identity relations on recorded result streams; full ?w/!w vocabulary sweep over typed operands",
+        category="exploration",
+        text="For generated producers P of tagged stacks and sub-expressions E (any stack effect, failing, multi-yield) and for `entry`-style producers over "
+             "sample DWARF files with DWARF sub-expressions: results(P) must equal results(P ?(E)) plus results(P !(E)) as multisets of whole serialised stacks, "
+             "infix forms may only yield stacks of P, `let` and `[E]` must reproduce every P stack unchanged the right number of times; every ?w/!w pair of the "
+             "vocabulary (about 970) is applied to 24 operand kinds: unchanged-or-nothing, never both, neither iff a diagnostic.",
+        note="No model; both sides are runs of the engine.  Comparisons use the driver's canonical serialisation (values, domains, positions, DIE identity incl. import route).",
+        design="DESIGN.md 5-C04"),
     "C08": dict(
         technique="exact big-integer oracle over recorded operator events (direct calls into int.cc + queries) under ASan/UBSan",
         category="exploration",
